@@ -281,11 +281,13 @@ theorem NCa_checkArg (t : Tables) (pats : List Str) : ∀ d hn, NCa (checkArg t 
     intro e
     split
     · simp
-    · rename_i e' h; exact absurd h (h1 e')
     · split
       · simp
-      · simp
-      · rename_i e' h; exact absurd h (h2 e')
+      · rename_i e' h; exact absurd h (h1 e')
+      · split
+        · simp
+        · simp
+        · rename_i e' h; exact absurd h (h2 e')
 
 theorem NCa_checkArgs (t : Tables) (pats : List Str) (hn : Bool) : ∀ ds, NCa (checkArgs t pats hn ds) := by
   intro ds
@@ -299,11 +301,13 @@ theorem NCa_checkArgs (t : Tables) (pats : List Str) (hn : Bool) : ∀ ds, NCa (
     intro e
     split
     · simp
-    · rename_i e' h; exact absurd h (h1 e')
     · split
       · simp
-      · simp
-      · rename_i e' h; exact absurd h (h2 e')
+      · rename_i e' h; exact absurd h (h1 e')
+      · split
+        · simp
+        · simp
+        · rename_i e' h; exact absurd h (h2 e')
 
 theorem NCa_checkFcn (t : Tables) (pats : List Str) (d : ADecl) : NCa (checkFcn t pats d) := by
   obtain ⟨ptrs, arr, c, htm, tn, tb, sg, fp, ini, nt, ttm, nm, attrs, params⟩ := d
